@@ -285,6 +285,20 @@ def report(prop: str, tier: str, results: List[Dict[str, Any]], wall: float, ver
         violations.append({"source": "obligation", "g": g})
     for name, f in native_failures:
         violations.append({"source": "native", "unit": name, "failure": f})
+    # a unit whose code left the verifier's subset is undecided; its bounded native replay (the inputs the contract's
+    # counterexamples are replayed on) still runs against the real function, and a failing input there is a violation
+    fallback_notes: List[str] = []
+    for r in results:
+        if r["kind"] in ("function", "lemma") and r["errors"] and not any(e.startswith("checker crash") for e in r["errors"]):
+            unit = next((u for u in _UNITS if getattr(u, "name", None) == r["name"]), None)
+            entry = getattr(unit, "replay", None)
+            if entry:
+                rr = native_call(entry, {"obligation": "", "model": {}, "desc": "", "unit": r["name"]}, 300)
+                if rr.get("confirmed"):
+                    violations.append({"source": "native", "unit": r["name"] + " [bounded fallback: unit undecided]",
+                                       "failure": rr})
+                else:
+                    fallback_notes.append(f"{r['name']}: undecided; bounded replay {entry} found no failing input")
     rc = 0
     lines: List[str] = []
     (VERIF / "replays").mkdir(exist_ok=True)
